@@ -179,8 +179,12 @@ class WebsocketSession(object):
             )
         except _SocketFail as error:
             self._socket_fail('unable to connect to proxy; {}', error)
+        host = self.websocket.host
+        if ':' in host:
+            # An IPv6 literal needs its brackets in an authority
+            host = '[{}]'.format(host)
         proxy_request = proxy.build_request(
-            self.websocket.host, self.websocket.port,
+            host, self.websocket.port,
             proxy_username=_proxy_url.username,
             proxy_password=_proxy_url.password
         )
